@@ -16,6 +16,7 @@ type Clause struct {
 	Expr  ast.Expr
 	Where string // contract file:line
 	Props []string // nil = all of the owner's
+	Group string // "invariant@G" / "ensures@G" / "exit@G": obligations of group G see only ungrouped and G assumptions
 }
 
 type atCall struct {
@@ -40,7 +41,8 @@ type Contract struct {
 	PanicsWhen *Clause
 	Loops     map[int]*LoopSpec
 	Trusted   bool
-	Pure      bool // callee may be inlined in expressions
+	Pure      bool     // results are a function of the argument values and of the "reads" terms
+	Reads     []*Clause // heap terms a pure function depends on (evaluated at the call)
 	ModeBV    bool
 	NoSafety  bool
 	Holds     []string // locks the caller must hold ("x.mu")
@@ -55,6 +57,7 @@ type Contract struct {
 }
 
 type Lemma struct {
+	Axiom    bool // "//@ axiom name": assumed (listed as trusted), available to every obligation of its package
 	ModeBV   bool
 	Name     string
 	Pkg      *packages.Package
@@ -80,7 +83,7 @@ type TypeSpec struct {
 }
 
 var clauseKeywords = map[string]bool{"property": true, "requires": true, "ensures": true, "modifies": true,
-	"panics": true, "loop": true, "invariant": true, "decreases": true, "exit": true, "trusted": true, "pure": true, "mode": true,
+	"panics": true, "loop": true, "invariant": true, "decreases": true, "exit": true, "trusted": true, "pure": true, "reads": true, "mode": true,
 	"nosafety": true, "utf8": true, "order": true, "atcall": true, "assumes": true, "ghostfield": true, "holds": true, "nowrap": true, "exclusive": true, "inline": true, "forall": true, "guards": true, "lockinv": true, "ghost": true, "unroll": true}
 
 // rewriteImplies turns `A ==> B` (lowest precedence, right associative, split at
@@ -284,8 +287,11 @@ func (e *Engine) parseClause(text, where string) *Clause {
 	if err != nil {
 		fatal("contract %s: cannot parse %q: %v", where, text, err)
 	}
-	return &Clause{Text: strings.TrimSpace(text), Expr: ex, Where: where}
+	return &Clause{Text: strings.TrimSpace(text), Expr: ex, Where: where, Group: curGroupTag}
 }
+
+// curGroupTag: the "@G" suffix of the clause keyword being parsed
+var curGroupTag string
 
 // parseContractFile reads the //@ blocks of a verif-tagged contract file.
 func (e *Engine) parseContractFile(p *packages.Package, f *ast.File, fname string) {
@@ -310,7 +316,8 @@ func (e *Engine) parseContractFile(p *packages.Package, f *ast.File, fname strin
 		}
 		first := strings.Fields(t)[0]
 		first = strings.TrimSuffix(first, ":")
-		if first == "func" || first == "lemma" || first == "type" || first == "define" || clauseKeywords[first] {
+		first, _, _ = strings.Cut(first, "@")
+		if first == "func" || first == "lemma" || first == "axiom" || first == "type" || first == "define" || clauseKeywords[first] {
 			joined = append(joined, line{t, l.pos})
 		} else if len(joined) > 0 {
 			joined[len(joined)-1].text += " " + t
@@ -340,6 +347,7 @@ func (e *Engine) parseContractFile(p *packages.Package, f *ast.File, fname strin
 		where := e.pos(l.pos)
 		kw, rest, _ := strings.Cut(l.text, " ")
 		kw = strings.TrimSuffix(kw, ":")
+		kw, curGroupTag, _ = strings.Cut(kw, "@")
 		rest = strings.TrimSpace(rest)
 		switch kw {
 		case "define":
@@ -359,8 +367,8 @@ func (e *Engine) parseContractFile(p *packages.Package, f *ast.File, fname strin
 			} else {
 				fi.Contract = cur
 			}
-		case "lemma":
-			curLemma = &Lemma{Name: p.Name + "." + rest, Pkg: p, Where: where, File: f}
+		case "lemma", "axiom":
+			curLemma = &Lemma{Name: p.Name + "." + rest, Pkg: p, Where: where, File: f, Axiom: kw == "axiom"}
 			e.lemmas = append(e.lemmas, curLemma)
 			cur, curType, curLoop = nil, nil, nil
 		case "type":
@@ -429,6 +437,12 @@ func (e *Engine) parseContractFile(p *packages.Package, f *ast.File, fname strin
 		case "pure":
 			if cur != nil {
 				cur.Pure = true
+			}
+		case "reads":
+			if cur != nil {
+				for _, r := range splitTop(rest) {
+					cur.Reads = append(cur.Reads, e.parseClause(strings.TrimSpace(r), where))
+				}
 			}
 		case "inline":
 			if cur != nil {
